@@ -60,7 +60,7 @@ Qed.
 Lemma wf_alloc c ch s l req : wf s -> wf (snd (allocIPOffer c ch s l req)).
 Proof.
   intros H. unfold allocIPOffer.
-  destruct (match req with Some r => _ | None => _ end); simpl; auto.
+  destruct (phase1 ch s l req); simpl; auto.
   destruct (scan _ _ _ _); simpl; auto using wf_set_next.
   destruct (scan _ _ _ _); simpl; auto using wf_set_next.
 Qed.
@@ -73,7 +73,7 @@ Proof.
   intros H. unfold handleDiscover.
   pose proof (wf_findOrCreate c s (getcid m) (m_chaddr m) H) as H1.
   destruct (findOrCreate c s (getcid m) (m_chaddr m)) as [s1 l]. simpl in H1.
-  set (l1 := match l_state l with SFree => l | _ => _ end).
+  set (l1 := discover_reset now l m).
   assert (Hp : wf (put s1 l1)) by auto using wf_put.
   destruct (l_offer l1) as [x|].
   - simpl. auto using wf_put.
@@ -146,3 +146,45 @@ Proof. constructor. Qed.
 
 Theorem table_keys_unique : forall c h, NoDup (map l_cid (tbl (fst (run c (init c) h)))).
 Proof. intros c h. apply (wf_run c h (init c) (wf_init c)). Qed.
+
+(* ---------------------------------------------------------------- *)
+(* boolean reflection of the spec vocabulary *)
+
+Lemma lstate_eqb_eq a b : lstate_eqb a b = true <-> a = b.
+Proof. destruct a, b; simpl; split; intros H; try reflexivity; discriminate. Qed.
+
+Lemma oeqb_eq a b : oeqb a b = true <-> a = b.
+Proof.
+  destruct a as [x|], b as [y|]; simpl; split; intros H; try reflexivity; try discriminate.
+  - apply N.eqb_eq in H. subst. reflexivity.
+  - inversion H. apply N.eqb_refl.
+Qed.
+
+Lemma acked_to_other_spec t k x :
+  acked_to_other t k x = true <->
+  exists l, In l t /\ l_state l = SAllocated /\ l_ip l = Some x /\ l_cid l <> k.
+Proof.
+  unfold acked_to_other. rewrite existsb_exists. split.
+  - intros [l [Hin H]]. apply andb_true_iff in H as [H H3]. apply andb_true_iff in H as [H1 H2].
+    exists l. repeat split; auto.
+    + apply lstate_eqb_eq; auto.
+    + apply oeqb_eq; auto.
+    + apply negb_true_iff in H3. apply N.eqb_neq; auto.
+  - intros [l [Hin [H1 [H2 H3]]]]. exists l. split; auto.
+    rewrite H1, H2. simpl. rewrite N.eqb_refl. simpl. apply negb_true_iff. apply N.eqb_neq; auto.
+Qed.
+
+Lemma uniqb_spec t : uniqb t = true <-> Uniq t.
+Proof.
+  unfold uniqb, Uniq. rewrite forallb_forall. split.
+  - intros H l1 l2 x H1 H2 S1 S2 I1 I2.
+    specialize (H l1 H1). rewrite S1, I1 in H. apply negb_true_iff in H.
+    destruct (N.eq_dec (l_cid l1) (l_cid l2)) as [E|E]; auto.
+    assert (A : acked_to_other t (l_cid l1) x = true).
+    { apply acked_to_other_spec. exists l2. repeat split; auto. }
+    congruence.
+  - intros H l Hl. destruct (l_state l) eqn:S; auto. destruct (l_ip l) as [x|] eqn:I; auto.
+    apply negb_true_iff. destruct (acked_to_other t (l_cid l) x) eqn:A; auto.
+    apply acked_to_other_spec in A as [l2 [H2 [S2 [I2 N2]]]].
+    exfalso. apply N2. symmetry. apply (H l l2 x); auto.
+Qed.
